@@ -288,7 +288,34 @@ pub mod sp {
         ensures (#[trigger] rm1(s, k)).len() == (if s.contains(k) { s.len() - 1 } else { s.len() as int })
     { if s.contains(k) { lemma_contains_has_first(s, k); } }
 
-    pub broadcast group group_wf { b_rm1_len, b_wf_remove, b_wf_store, b_wf_touch, b_nodup_pos, b_index_contains,
+    pub broadcast proof fn b_rm_all_nodup(s: Seq<String>, k: String)
+        requires s.no_duplicates()
+        ensures #[trigger] rm_all(s, k) == rm1(s, k)
+    { lemma_rm_all_nodup(s, k); }
+
+    pub broadcast proof fn b_wf_len<V>(m: Map<String, V>, q: Seq<String>)
+        ensures #[trigger] wf(m, q) ==> q.len() == m.dom().len()
+    { if wf(m, q) { lemma_wf_len(m, q); } }
+
+    /// HashMap::get_mut changed (at most) the value under one key: same key set, still well-formed
+    pub broadcast proof fn b_wf_mutated<V>(m: Map<String, V>, m2: Map<String, V>, q: Seq<String>, k: &str)
+        requires #[trigger] wf(m, q), #[trigger] crate::ax::only_key_mutated::<String, V, str>(m, m2, k)
+        ensures wf(m2, q)
+    {
+        crate::ax::axiom_str_only_key_mutated(m, m2, k);
+        lemma_wf_same_dom(m, m2, q);
+    }
+
+    /// storing a key that is in neither store nor queue
+    pub broadcast proof fn b_wf_push<V>(m: Map<String, V>, q: Seq<String>, k: String, e: V)
+        requires wf(m, q), !q.contains(k)
+        ensures #[trigger] wf(m.insert(k, e), q.push(k))
+    {
+        lemma_push_nodup(q, k);
+        assert forall|x: String| #[trigger] m.insert(k, e).contains_key(x) <==> q.push(k).contains(x) by { }
+    }
+
+    pub broadcast group group_wf { b_wf_push, b_wf_mutated, b_rm_all_nodup, b_wf_len, b_rm1_len, b_wf_remove, b_wf_store, b_wf_touch, b_nodup_pos, b_index_contains,
         b_pop_front_is_remove0, b_drop_first_is_remove0, b_pop_back_is_remove_last }
 
     pub proof fn lemma_rm_all_nodup(s: Seq<String>, k: String)
@@ -359,9 +386,11 @@ pub assume_specification [Instant::elapsed] (i: &Instant) -> (d: std::time::Dura
 pub assume_specification [std::time::Duration::as_secs] (d: &std::time::Duration) -> (r: u64)
     ensures r == dur_secs(*d);
 
-/// whole seconds since the epoch (async engine); one reading per call site
+/// whole seconds since the epoch as read by this operation (async engine; one reading per operation, DESIGN 5.2)
+pub uninterp spec fn now_secs() -> u64;
+
 #[verifier::external_body]
-pub fn clock_now_secs() -> (r: u64) { unimplemented!() }
+pub fn clock_now_secs() -> (r: u64) ensures r == now_secs() { unimplemented!() }
 
 #[verifier::external_body]
 pub fn rand_below(n: usize) -> (r: usize)
@@ -444,13 +473,30 @@ pub fn vd_position_str(o: &VecDeque<String>, key: &str) -> (r: Option<usize>)
 }
 
 #[verifier::external_body]
-pub fn vd_retain_ne(o: &mut VecDeque<String>, key: &String)
+pub fn vd_retain_ne_raw(o: &mut VecDeque<String>, key: &String)
     ensures final(o)@ == rm_all(old(o)@, *key)
 { unimplemented!() }
 
 #[verifier::external_body]
-pub fn vd_retain_ne_str(o: &mut VecDeque<String>, key: &str)
+pub fn vd_retain_ne_str_raw(o: &mut VecDeque<String>, key: &str)
     ensures final(o)@ == rm_all(old(o)@, s2s(key))
 { unimplemented!() }
+
+/// `o.retain(|k| k != key)`: the assumed part is *_raw above; the extra facts (for duplicate-free queues) are proved.
+pub fn vd_retain_ne(o: &mut VecDeque<String>, key: &String)
+    ensures final(o)@ == rm_all(old(o)@, *key),
+        old(o)@.no_duplicates() ==> final(o)@ == rm1(old(o)@, *key) && final(o)@.push(*key) == touch(old(o)@, *key),
+{
+    vd_retain_ne_raw(o, key);
+    proof { if old(o)@.no_duplicates() { lemma_rm_all_nodup(old(o)@, *key); } }
+}
+
+pub fn vd_retain_ne_str(o: &mut VecDeque<String>, key: &str)
+    ensures final(o)@ == rm_all(old(o)@, s2s(key)),
+        old(o)@.no_duplicates() ==> final(o)@ == rm1(old(o)@, s2s(key)) && final(o)@.push(s2s(key)) == touch(old(o)@, s2s(key)),
+{
+    vd_retain_ne_str_raw(o, key);
+    proof { if old(o)@.no_duplicates() { lemma_rm_all_nodup(old(o)@, s2s(key)); } }
+}
 
 } // verus!
